@@ -287,3 +287,35 @@ pub fn default_cfg() -> &'static Cfg {
 pub fn compact_cfg() -> &'static Cfg {
     &CFGS[1]
 }
+
+// ---------------------------------------------------------------------------
+// Allocation probe (C15 over the big-integer API): the harness binary registers its allocation counter; the
+// per-configuration `big_apply` reads it immediately before and after the library call (operands are converted
+// outside that window) and leaves the difference here.
+
+static ALLOC_PROBE: std::sync::OnceLock<fn() -> u64> = std::sync::OnceLock::new();
+
+thread_local! {
+    static LAST_OP_ALLOCS: std::cell::Cell<u64> = const { std::cell::Cell::new(0) };
+}
+
+pub fn set_alloc_probe(f: fn() -> u64) {
+    let _ = ALLOC_PROBE.set(f);
+}
+
+#[inline]
+pub fn probe_allocs() -> u64 {
+    match ALLOC_PROBE.get() {
+        Some(f) => f(),
+        None => 0,
+    }
+}
+
+pub fn set_last_op_allocs(n: u64) {
+    LAST_OP_ALLOCS.with(|c| c.set(n));
+}
+
+/// Heap allocations performed by the library during the last `big_apply` on this thread.
+pub fn last_op_allocs() -> u64 {
+    LAST_OP_ALLOCS.with(|c| c.get())
+}
